@@ -28,7 +28,8 @@ def run(ctx):
 
 def rule_wire(ctx, repo, eng, ci):
     r = ctx.rule('C20.L1', 'filter wire form: writer, reader and the BIP37 table agree (varbytes, u32, u32, u8)', engine='LAYOUT', floor=3)
-    common.rule_agreement(r, repo, eng, ci)
+    cmp_ = common.rule_agreement(r, repo, eng, ci)
+    rfields = {i.field for i in (cmp_.R if cmp_ is not None else []) if i.get('field')}
     common.rule_vs_spec(r, repo, eng, ci, BLOOM_WIRE)
     # the reader installs every field on the returned object
     fr = repo.lookup_method(ci, 'stream_deserialize')
@@ -36,9 +37,15 @@ def rule_wire(ctx, repo, eng, ci):
     for n in walk_no_nested(fr.node):
         if isinstance(n, ast.Assign) and isinstance(n.targets[0], ast.Attribute) and isinstance(n.value, ast.Name):
             sets[n.targets[0].attr] = n.value.id
-    for f in ('vData', 'nHashFuncs', 'nTweak', 'nFlags'):
-        r.check(sets.get(f) == f, 'reader-installs:%s' % f, fr.site, 'field %s installed from the value read' % f,
-                'the reader does not install %s from the value read (got %s)' % (f, sets.get(f)))
+    fields = ('vData', 'nHashFuncs', 'nTweak', 'nFlags')
+    for f in fields:
+        got = sets.get(f)
+        if got == f or (got is None and f in rfields):
+            r.ok('reader-installs:%s' % f, fr.site, 'field %s installed from the value read' % f)
+        elif got in fields:
+            r.violated('reader-installs:%s' % f, fr.site, 'the reader installs %s from the value read for %s' % (f, got))
+        else:
+            r.undecided('reader-installs:%s' % f, fr.site, 'no plain assignment of the value read to the field %s was found (got %s)' % (f, got))
 
 
 def canon(e):
